@@ -30,11 +30,12 @@ MODULES = [
     'contracts.c02_history_replay',
     'contracts.c04_runahead',
     'contracts.c05_pool',
+    'contracts.c05_pool_replay',
 ]
 
 EXTRA_CHECKS = {'C26': ['contracts.c26_census:check'],
                 'C09': ['contracts.c09_census:check'],
-                'C24': ['contracts.c24_restricted:whitelist_check'],
+                'C24': ['contracts.c24_restricted:whitelist_check', 'contracts.c24_bounded:check'],
                 'C02': ['contracts.c02_retries:census'],
                 'C32': ['contracts.c32_expiry:census'],
                 'C11': ['contracts.c11_bounded:check'],
@@ -43,8 +44,18 @@ EXTRA_CHECKS = {'C26': ['contracts.c26_census:check'],
                         'contracts.c13_dependency_bounded:check'],
                 'C46': ['contracts.c13_dependency_bounded:check'],
                 'C03': ['contracts.c03_replay:bounded_unsat'],
+                'C16': ['contracts.c16_bounded:check'],
+                'C18': ['contracts.c18_bounded:check'],
+                'C47': ['contracts.c47_bounded:check', 'contracts.c47_bounded:check_group'],
                 # bounded stand-ins (contracts checked at run time over an enumerated scope; level
                 # "exploration", never counted as proof)
+                'C12': ['contracts.c12_bounded:check'],
+                'C17': ['contracts.c17_bounded:check'],
+                'C21': ['contracts.c21_bounded:check'],
+                'C22': ['contracts.c22_bounded:check'],
+                'C33': ['contracts.c33_bounded:check'],
+                'C41': ['contracts.c41_bounded:check'],
+                'C44': ['contracts.c44_bounded:check'],
                 'C23': ['contracts.c23_bounded:check'],
                 'C35': ['contracts.c35_bounded:check'],
                 'C37': ['contracts.c37_bounded:check'],
